@@ -69,9 +69,9 @@ def family(ctx):
     add(B.Image('raw', bytes(BIG), bounds=[64, 512, 1 << 20]), 'zeros 2MiB')
     # VHDX hostile fields
     for rc in (0, 1, 2046, 2047, 2048, 65535, 0xffffffff):
-        add(B.vhdx(region_count=rc, pad_regions_before=3, tail=70000), 'region_count=%d' % rc)
+        add(B.vhdx(region_count=rc, pad_regions_before=3, tail=70000 if rc < 2048 else 700000), 'region_count=%d' % rc)
     for mc in (0, 1, 2046, 2047, 2048, 65535):
-        add(B.vhdx(meta_count=mc, pad_items_before=3, tail=140000), 'meta_count=%d' % mc)
+        add(B.vhdx(meta_count=mc, pad_items_before=3, tail=140000 if mc < 2048 else 2300000), 'meta_count=%d' % mc)
     for il in (0, 8, 65535, 65536, 65537, (1 << 32) - 1):
         add(B.vhdx(item_length=il, tail=700000, meta_len_field=0xffffffff), 'item_length=%d' % il)
     add(B.vhdx(pad_items_before=2046, pad_items_after=0, item_length=(1 << 32) - 1, tail=700000),
